@@ -353,6 +353,12 @@ def scrape_java():
         if len(re.findall(r"self\.%s\(\)" % ctr, b)) != 1:
             one = False
     facts["java_proxy_one_slot_per_event"] = one
+    # is the decoder of every output slot scoped (a block of its own), so that two of them can coexist?
+    n_scoped = len(re.findall(r'r#"\{\{\s*\{BYTE_BUFFER\} \{BUNDLE_OUT\}', impl))
+    n_bare = len(re.findall(r'r#"\{BYTE_BUFFER\} \{BUNDLE_OUT\}', impl))
+    facts["java_scopes_bundle_out"] = n_scoped == 3 and n_bare == 0
+    if not ((n_scoped == 3 and n_bare == 0) or (n_scoped == 0 and n_bare == 3)):
+        problems.append("java proxy: declarations of bundleOut not recognised (%d scoped, %d bare)" % (n_scoped, n_bare))
     carriers = {"Uint8": "byte", "Int8": "byte", "Uint16": "char", "Int16": "char", "Uint32": "int", "Int32": "int", "Uint64": "long", "Int64": "long"}
     ok = True
     for k, v in carriers.items():
